@@ -1,6 +1,6 @@
 (** Pinned statements of the C07 property theorems: compiled on every check, so a theorem cannot be
     weakened silently. *)
-From V Require Import Base.Util Gql.Ast Peg.Peg Gen.C07_grammar_gen C07.Builder C07.Model C07.AstEq C07.Spec C07.Proofs C07.Lexical C07.Strings C07.Numbers C07.Properties.
+From V Require Import Base.Util Gql.Ast Peg.Peg Gen.C07_grammar_gen C07.Builder C07.Model C07.AstEq C07.Spec C07.Proofs C07.Lexical C07.Strings C07.Numbers C07.Fuel C07.Properties.
 From V Require Import Peg.PegProps.
 
 Check (C07_positions_true : forall inp file (p : pair rule),
@@ -70,6 +70,9 @@ Check (C07_int_lex : forall l post sk i,
   is_int_lexeme l = true -> int_follow_ok post = true ->
   runs gql_grammar sk ANon (Call R_IntValue) (l ++ post) i
        (Ok (post, (i + slen l)%N, [Pair R_IntValue i (i + slen l)%N []]))).
+Check (C07_never_out_of_fuel : forall start inp, parse_pairs start inp <> OutOfFuel).
+Check (C07_parse_never_fuel : forall file inp,
+  parse_operation_document file inp <> PFuel /\ parse_type_system_document file inp <> PFuel).
 Print Assumptions C07_positions_true.
 Print Assumptions C07_lone_cr_refuted.
 Print Assumptions C07_block_string_refuted.
@@ -85,3 +88,5 @@ Print Assumptions C07_string_lex.
 Print Assumptions C07_string_lex_empty.
 Print Assumptions C07_spec_reads_quote.
 Print Assumptions C07_int_lex.
+Print Assumptions C07_never_out_of_fuel.
+Print Assumptions C07_parse_never_fuel.
